@@ -328,7 +328,10 @@ def mergePythonVersion (m1 m2 : Atom) (isAnd : Bool) : Option M :=
     `Specifier(op + env value).contains(literal)`, which is the mirrored forward comparison only for
     the six ordering/equality operators on a plain release literal -/
 def _root_.DepLogic.Atom.exactView (a : Atom) : Bool :=
-  if !a.reversed || !versionLikeNames.contains a.name then true
+  -- the `fix:` for D24: implementation_version is compared as a version by `_evaluate` but as a string by its
+  -- specifier view (it is not in `_VERSION_LIKE_MARKER_NAME`)
+  if versionEvalNames.contains a.name && !versionLikeNames.contains a.name then false
+  else if !a.reversed || !versionLikeNames.contains a.name then true
   else if a.op == .in_ || a.op == .notIn then true
   else a.op != .compat && (splitDots a.value).all fun p => (SpecParse.natOfDigits? p.toList).isSome
 
